@@ -543,7 +543,7 @@ def wsdl_cfgs(q):
                               attr_named_simple=False, avoid_nested_same_name=True)),
         ("wsdl-keywords", gen.cfg_with(files=(1, 2), wsdl=True, quarantine=q, keyword_rate=0.3, complex_per_file=(0, 2), simple_per_file=(0, 2),
                                        elements_per_file=(0, 1), attr_named_simple=False, avoid_nested_same_name=True)),
-        ("wsdl-headers", gen.cfg_with(files=(1, 3), wsdl=True, quarantine=q, headers=(1, 3), p_parts_attr=0.3, complex_per_file=(0, 1),
+        ("wsdl-headers", gen.cfg_with(files=(1, 3), wsdl=True, quarantine=q, headers=(1, 3), p_parts_attr=0.3, complex_per_file=(0, 1), p_part_element_cross=0.5,
                                       simple_per_file=(0, 2), elements_per_file=(0, 1), ops=(1, 3), attr_named_simple=False, avoid_nested_same_name=True)),
     ]
 
@@ -588,7 +588,7 @@ def profiles(q):
         "names": gen.cfg_with(files=(2, 4), quarantine=q, name_pool=pool, max_words=2, keyword_rate=0.0, reuse_names=True,
                               p_ref=0.45, p_ext=0.45, p_cross_file=0.7, elements_per_file=(1, 3), complex_per_file=(2, 4)),
         "names-wsdl": gen.cfg_with(files=(2, 3), wsdl=True, quarantine=q, name_pool=pool + ["part", "body"], max_words=2, keyword_rate=0.0,
-                                   reuse_names=True, p_ref=0.4, p_cross_file=0.7, attr_named_simple=False, avoid_nested_same_name=True, ops=(1, 3),
+                                   reuse_names=True, p_ref=0.4, p_cross_file=0.7, attr_named_simple=False, avoid_nested_same_name=True, ops=(1, 3), p_part_element_cross=0.6,
                                    complex_per_file=(1, 2), simple_per_file=(0, 2), elements_per_file=(1, 2), p_part_name_differs=0.3),
         # a file and its twin (same layout and local names, other namespace and members), both read in one run
         "names-twin": gen.cfg_with(files=(2, 3), quarantine=q, name_pool=pool, max_words=2, keyword_rate=0.0, reuse_names=True, p_twin=1.0, own_ns_default=0.5,
@@ -773,7 +773,10 @@ def run(prop, tier):
     q = _quarantine([prop])
     if prop == "C01":
         wide = [("core-wide-facets", gen.cfg_with(files=(1, 2), quarantine=q, wide_facets=0.8, simple_per_file=(3, 5), complex_per_file=(1, 2)))]
-        check_generic("C01", tier, core_cfgs(q) + wide, 50, 2000, sig_c01, [], rule=(
+        # compile-only and cheap: the profiles of the other structural properties as well (adversarial namespaces incl. three
+        # and more colliding abbreviations, reused names, extension forests and twins)
+        more = pick(q, "ns", "ns-wsdl", "names", "ext", "ext-twin")
+        check_generic("C01", tier, core_cfgs(q) + wide + more, 80, 3000, sig_c01, [], rule=(
             "random schema sets over the DESIGN §2 grammar (profiles core, core-many-files, core-keywords, wsdl; one program per "
             "seed sub-stream), generated by the real zeep-lib, emitted file compiled with rustc --emit=metadata against the six "
             "documented crates only. Non-trivial = every program (all contain >= 1 component); distinct = structural fingerprint of "
